@@ -32,11 +32,11 @@ PROPS = {
 # runs per tier are fixed numbers (so coverage does not depend on machine
 # speed); cap_s only bounds the time spent *starting* runs.
 TIERS = {
-    "C02": {"quick": dict(runs=24_000, cap_s=150), "thorough": dict(runs=2_000_000, cap_s=2700)},
-    "C06": {"quick": dict(runs=8_000, cap_s=150), "thorough": dict(runs=1_200_000, cap_s=2700)},
-    "C08": {"quick": dict(runs=4_000, cap_s=200), "thorough": dict(runs=400_000, cap_s=3300)},
-    "C16": {"quick": dict(runs=16_000, cap_s=150), "thorough": dict(runs=1_200_000, cap_s=2700)},
-    "C18": {"quick": dict(runs=8_000, cap_s=150), "thorough": dict(runs=500_000, cap_s=3300)},
+    "C02": {"quick": dict(runs=24_000, cap_s=150), "thorough": dict(runs=1_500_000, cap_s=2400)},
+    "C06": {"quick": dict(runs=8_000, cap_s=150), "thorough": dict(runs=1_200_000, cap_s=2400)},
+    "C08": {"quick": dict(runs=4_000, cap_s=200), "thorough": dict(runs=300_000, cap_s=2400)},
+    "C16": {"quick": dict(runs=16_000, cap_s=150), "thorough": dict(runs=1_200_000, cap_s=2400)},
+    "C18": {"quick": dict(runs=8_000, cap_s=150), "thorough": dict(runs=350_000, cap_s=2400)},
 }
 # pre-emptive runs hand a baton between real threads; the OS wake-up latency
 # leaves cores idle, so C08 over-subscribes them.
